@@ -322,10 +322,11 @@ structure FragOpts where
 
 
 mutual
-/-- literals, identifiers, `#`, the operators of the scalar fragment, `in` / `not in` / `..`, indexing,
-`len`, slicing, `all none any one count` with their closures and — with `calls` — calls of environment
-functions.  (`filter` and `map` are left out: their static result type `[]T` is not the `[]interface{}`
-the VM builds — known finding; so are members and method calls.) -/
+/-- literals, identifiers, `#`, the operators of the scalar fragment, `in` / `not in` / `..` / `**`, indexing,
+`len`, slicing, array and map literals, member access, the conditional, `all none any one count filter map`
+with their closures (`filter` / `map` are admitted by `typed2` only under the documented result type
+`[]interface{}`: the code's `[]T` is the known finding) and — behind the flags of `FragOpts` — calls of
+environment functions, `matches`, method calls. -/
 def inFrag2 (fo : FragOpts) : Node → Bool
   | .bool _ _ | .str _ _ | .int _ _ | .float _ _ | .ident _ _ _ | .pointer _ => true
   | .unary _ op x => fragUnary op && inFrag2 fo x
